@@ -188,6 +188,9 @@ namespace c14
         int qa{0}, qb{0};                // quadrant position index (0..7) of alpha, beta
         int word{-1};                    // word the transcribed table predicts with the harness's arithmetic
         bool defined{true};
+        std::string kind{"triv"};        // "triv" | "long" | "short"
+        std::string cls{"-"};            // class a_ij of a long path
+        std::vector<bool> outs;          // outcomes consumed inside the class tree / the exhaustive fold
     };
 
     // 0:"0" 1:(0,h) 2:"h" 3:(h,pi) 4:"pi" 5:(pi,3h) 6:"3h" 7:(3h,2pi); exact comparisons in double,
@@ -223,10 +226,17 @@ namespace c14
     struct Quant  // everything the switching functions are made of, from the oracle's words
     {
         Six six;
-        LD s(const std::string &name, bool &ok) const
+        // `seam`: how far the arc angles the function reads are from the 0 / 2pi seam of mod2pi, where the
+        // function jumps (the library snaps angles within 5e-7 of the seam)
+        LD s(const std::string &name, bool &ok, LD *seam = nullptr) const
         {
             const Word &lsl = six.w[0], &rsr = six.w[1], &rsl = six.w[2], &lsr = six.w[3];
-            auto need = [&](const Word &a) { ok = ok && a.ok; };
+            auto need = [&](const Word &a)
+            {
+                ok = ok && a.ok;
+                if (seam)
+                    *seam = std::min({*seam, a.t, TWOPI - a.t, a.q, TWOPI - a.q});
+            };
             if (name == "s12" || name == "s22_2")
             {
                 need(rsr), need(rsl);
